@@ -5,7 +5,7 @@
 cd /verif || exit 2
 NAMES=${*:-$(ls twins/*.diff | sed 's#twins/##; s#\.diff##')}
 for t in $NAMES; do
-  if git -C /repo apply --check "twins/$t.diff" 2>/dev/null; then continue; fi
+  if git -C /repo apply --check "/verif/twins/$t.diff" 2>/dev/null; then continue; fi
   W=/tmp/wt_$t; git -C /repo worktree remove --force "$W" 2>/dev/null; rm -rf "$W"
   git -C /repo worktree add -q --detach "$W" HEAD
   ( cd "$W" && git apply --3way "/verif/twins/$t.diff" >/dev/null 2>&1 )
